@@ -297,9 +297,12 @@ def null_space(A: npt.ArrayLike, dim: int | None = None) -> npt.NDArray[np.numbe
         dims = np.sum(s > tol, axis=-1, dtype=int)
         if not np.all(dims == dims.flat[0]):
             raise ValueError("Cannot calculate the null spaces of matrices when the spaces have different dimensions.")
-        dim = -dims.flat[0]
+        start = dims.flat[0]
+    else:
+        # the last dim rows of vh (vh[..., -dim:, :] would select every row for dim = 0)
+        start = vh.shape[-2] - dim
 
-    Q = np.swapaxes(vh[..., -dim:, :], -1, -2).conj()
+    Q = np.swapaxes(vh[..., start:, :], -1, -2).conj()
     return Q
 
 
